@@ -759,6 +759,9 @@ def run(chk):
                 chk.instance(r_ao, key, sample=dict(function=f["q"], access=show(n)[:80]))
                 chk.violation(r_ao, key, "%s picks a record by position (`%s`); only the last record (back()) stands for the history" % (f["q"], show(n)[:80]), f["file"], n["l"])
 
+    from verif import fallthrough
+    fallthrough.run(chk, "C17", floor=11)
+
     chk.assumptions += [
         "documented precedence: parentheses/functions, ^, * /, + -, comparisons, set operators (the property statement)",
         "NAME_IMPL / NAME_TOKEN in rules/C17.py: documented meaning of every UDQ function and operator name",
